@@ -5,7 +5,6 @@ package c03
 import (
 	"bytes"
 	"fmt"
-	"go/format"
 	"os"
 	"sort"
 	"strings"
@@ -61,11 +60,11 @@ func plain(c string) bool {
 func check(sub string) func(t h.TB, c Case) {
 	return func(t h.TB, c Case) {
 		in := []byte(c.Src)
-		ref, err := format.Source(in)
+		ref, err := oracle.FormatSource(in)
 		if err != nil {
 			t.Fatalf("harness: input does not parse: %v", err)
 		}
-		if again, err := format.Source(ref); err != nil || !bytes.Equal(again, ref) {
+		if again, err := oracle.FormatSource(ref); err != nil || !bytes.Equal(again, ref) {
 			// e.g. the first pass drops an empty "//" line between two import specs and the second
 			// pass then sorts them: "gofmt applied to the input" is not a stable reference
 			h.Exclude("gofmt is not idempotent on this input")
